@@ -536,6 +536,46 @@ def _r1716_report(rep, M, leaves, what, CHAR_TESTS):
                            'operation was an #undef - `-DFOO -U"FOO "` and `-D\\u00c4B -U\\u00c4B` leave the macro defined (gcc lexes the -U word like the name of #undef)' % (l[4], f), where=where(l[3]))
 
 
+def _peel_key_function(M, f, k):
+    """(g, e) when the key expression k of function f is g(e) - directly or through a once-defined local - for a KEY FUNCTION g of the program, else (None, k).
+    g is a key function when its result is determined by its one parameter and the file system: it has one parameter which it does not assign, mentions no
+    object outside its own locals (no global, no field of anything but a local record), calls only library functions, and every `return` hands back the
+    parameter or the result of a library call (a string made from the parameter's file)"""
+    n = k.strip_all()
+    if n.kind == 'DeclRefExpr' and n.ref_kind == 'VarDecl' and n.ref_id in M._locals.get(f, ()):
+        d = M._defs[f].get(n.ref_id, [])
+        if len(d) == 1 and d[0] is not None:
+            n = d[0].strip_all()
+    if not (n.kind == 'CallExpr' and n.callee() in M.fn and n.callee() not in M.dup and len(n.args()) == 1):
+        return (None, k)
+    g = n.callee()
+    fd = M.fn[g][1]
+    ps = M._params[g]
+    if len(ps) != 1 or M._defs[g].get(ps[0][0]):
+        return (None, k)
+    loc = M._locals[g]
+    for x in fd.walk():
+        if x.kind == 'DeclRefExpr' and x.ref_kind in ('VarDecl', 'ParmVarDecl') and x.ref_id not in loc:
+            return (None, k)
+        if x.kind == 'CallExpr' and (x.callee() is None or (x.callee() in M.fn and x.callee() != 'format')):
+            return (None, k)
+        if x.kind == 'MemberExpr':
+            b = x.inner[0].strip_all()
+            if not (b.kind == 'DeclRefExpr' and b.ref_kind == 'VarDecl' and b.ref_id in loc) or x.d.get('isArrow'):
+                return (None, k)
+    rets = [r for r in fd.find('ReturnStmt') if r.inner]
+    if not rets:
+        return (None, k)
+    for r in rets:
+        e = r.inner[0].strip_all()
+        if e.kind == 'DeclRefExpr' and e.ref_kind == 'ParmVarDecl' and e.ref_id == ps[0][0]:
+            continue
+        if e.kind == 'CallExpr' and e.callee() == 'format':
+            continue
+        return (None, k)
+    return (g, n.args()[0])
+
+
 def r1715(P, rep):
     """a memo table (static HashMap that is not keyed by token spelling: the `#pragma once` table, the guard memo, the include-path cache) is a dictionary
     only for the string its reader looks up.  The reader asks under one of its own parameters; an entry made by another function answers that question only
@@ -564,7 +604,11 @@ def r1715(P, rep):
         if spelled:
             continue
         tname = tid[0]
-        readers = [(a, M.origin(a[2], a[4])) for a in acc if a[0] == 'get']
+        # a key may be the path passed through a key function of the program (file_key(path): the file's identity instead of its spelling): two keys are
+        # then the same string when the SAME function is applied to the same path, so the wrapper is peeled off every access and compared by name
+        peeled = {id(a[3]): _peel_key_function(M, a[2], a[4]) for a in acc}
+        wrappers = {g for g, _ in peeled.values()}
+        readers = [(a, M.origin(a[2], peeled[id(a[3])][1])) for a in acc if a[0] == 'get']
         anchors = [(a, o) for a, o in readers if o[0] in ('param', 'local1')]
         u0 = readers[0][0][1]
         if not anchors:
@@ -575,11 +619,22 @@ def r1715(P, rep):
         (aa, anchor) = anchors[0]
         F = M.flow(anchor)
         rep.ob('R17.15', '%s:%s:%s:looked-up-under-own-parameter' % (aa[1], aa[2], tname), True, '', where='%s:%d' % (aa[1], aa[3].line), facts={'key': describe(anchor)})
+        g0 = peeled[id(aa[3])][0]
         for (op, un, f, c, k) in acc:
             if c is aa[3]:
                 continue
+            g1, k = peeled[id(c)]
             o = M.origin(f, k)
             where = '%s:%d' % (un, c.line)
+            if g1 != g0:
+                if F.member(o) or recognised(o):
+                    rep.ob('R17.15', '%s:%s:%s:%s-key-is-made-like-the-lookup-key' % (un, f, tname, op), False,
+                           '%s on table `%s` uses %s %s as key, while %s looks the table up under %s %s: the two are different strings for the same file, so the entry is never found '
+                           '(the memoised work is redone - a header is read again and its #define/#undef directives run twice)'
+                           % (c.callee(), tname, describe(o), 'passed through %s()' % g1 if g1 else 'as it is', aa[2], describe(anchor), 'passed through %s()' % g0 if g0 else 'as it is'), where=where)
+                else:
+                    rep.undecided('R17.15', '%s:%s:%s:%s-key/%s' % (un, f, tname, op, slug(o)), 'the key of %s on table `%s` is not made like the key %s looks up and its origin is not recognised' % (c.callee(), tname, aa[2]), where=where)
+                continue
             if F.member(o):
                 rep.ob('R17.15', '%s:%s:%s:%s-key-is-the-lookup-key' % (un, f, tname, op), True, '', where=where, facts={'key': describe(o)})
                 continue
